@@ -24,6 +24,9 @@ SPEC = {
              "ASYNCHRONOUS LOCAL SOCKET: iocopy.UDP against the real mapping.UDPVirtualConn (the localConn of tunnel.runDataCopy) "
              "over a gated UDP socket: reads that end inside the next record x sends of the session's writeLoop delayed past "
              "the following reads/compactions (every split position, sampled interleavings of t and s). "
+             "REAL UDP SOCKET: iocopy.UDP against a loopback *net.UDPConn (udpBatchWriter / sendmmsg) read concurrently by the "
+             "application: 1..70 small datagrams (batch edges 32/64) and bursts of large ones from one tunnel read (10x8000, "
+             "32x4000, 2x40000, mixed up to 65507: more than 64 KiB / 128 KiB per batch). "
              "SOCKS5 UDP-ASSOCIATE tunnel codec (udpTunnelConn, the listen-side peer of iocopy.UDP): the real SendPacket "
              "produces the wire, the real ReceivePacket reads it back; a burst coalesced into ONE read, k records per read, every "
              "split position, one-byte reads x every cut offset x both tails, prefix-boundary sizes, random bursts/partitions. "
